@@ -306,11 +306,55 @@ def _assembly_sparse(repo, col):
                                     T.find(x.args[0], lambda y: y.op == "mcall" and y.name == "arange") is not None) is not None
     col.check(okc, R, cfi, "index order (diagonals, off-diagonals) matches all_values", "diagonal indices first",
               "all_inds does not list the diagonal indices first", node=cfi.node)
+    _dimension(repo, col)
     # result read at the internal nodes
     r = ex.returns[-1] if ex.returns else None
     ok = r is not None and T.find(r, lambda x: x.op == "sub" and x.args[1].op == "param" and x.args[1].name == "internal_node_inds") is not None
     col.check(ok, R, fi, "solution read back at internal_node_inds", "branch-point voltages are dropped",
               f"returns {r.short() if r else None}", node=fi.node)
+
+
+def _dimension(repo, col):
+    """The generic sparse system has one row per compartment and per branch point.  Inside one
+    cell every node is the sink of some edge (edges come in both directions), so
+    `max(sinks) + 1` is the node count; a Network is a *disjoint union* of cells -- a cell
+    without edges (single compartment) that comes last has no sink, so the dimension must
+    come from the node tables there."""
+    R = "R-C01-assembly"
+    fi = repo.method("Network", "_init_morph_jax_spsolve")
+    ex = idxm.expander(repo, fi)
+    call = next((c for c in ex.calls if isinstance(c.func, ast.Name) and c.func.id == "comp_edges_to_indices"), None)
+    if call is None:
+        raise AnalysisError("Network._init_morph_jax_spsolve no longer calls comp_edges_to_indices")
+    t = ex.term(call)
+    cfi = repo.func(SU, "comp_edges_to_indices")
+    n_arg = t.kw.get("n_nodes") or (t.args[1] if len(t.args) > 1 else None)
+    if n_arg is None:
+        # what does the callee infer?
+        exc = idxm.expander(repo, cfi)
+        r = exc.returns[0] if exc.returns else None
+        n_t = r.args[0] if r is not None and r.op == "tuple" else None
+        from_edges_only = n_t is not None and all(
+            x.name in ("sink", "source") for x in n_t.walk() if x.op == "const" and isinstance(x.name, str))
+        col.check(not from_edges_only, R, fi, "Network: dimension of the sparse system covers every compartment",
+                  "dimension derived from the node tables",
+                  f"the dimension of the `jax.sparse` system of a network is inferred from the edge endpoints only "
+                  f"({n_t.short(80) if n_t else '?'}); a network whose last cell has a single compartment (no edges) gets "
+                  f"fewer rows than compartments, and those compartments are silently dropped from the solve", node=call)
+        return
+    # explicit count: compartments + branch points
+    leaves = {x.name for x in n_arg.walk() if x.op == "attr"}
+    ok = "cumsum_ncomp" in leaves and ("_par_inds" in leaves or "_cumsum_nbranchpoints_per_cell" in leaves)
+    col.check(ok, R, fi, "Network: dimension of the sparse system covers every compartment",
+              f"n_nodes = {n_arg.short(80)}: compartments + branch points",
+              f"the dimension handed to comp_edges_to_indices is {n_arg.short(80)}, not #compartments + #branch points", node=call)
+    # the callee must use it
+    exc = idxm.expander(repo, cfi)
+    r = exc.returns[0] if exc.returns else None
+    n_t = r.args[0] if r is not None and r.op == "tuple" else None
+    uses = n_t is not None and T.find(n_t, lambda x: x.op == "param" and x.name == "n_nodes") is not None
+    col.check(uses, R, cfi, "comp_edges_to_indices honours an explicit node count", "returned n_nodes depends on the argument",
+              "the explicit node count is ignored", node=cfi.node)
 
 
 def _explicit(repo, col):
